@@ -130,6 +130,18 @@ CHECKS["C08"] = dict(
          "the unifier are outside.",
     design="§4 C08")
 
+CHECKS["C09"] = dict(
+    engine="E2 mirsym (MIR -> z3)", technique="symbolic execution of rustc MIR (loop bodies from havocked loop states, inlined setters), z3 term-equality queries, native replay",
+    text="Bounded symbolic model checking of the definite-assignment kernels: match_id's look-up decision; gen_vec's "
+         "sequencing (statement i+1 in the environment returned by statement i, loop-carried variable tracked through "
+         "the havocked loop state); the IfElse/While/For arms of gen_flow (branches and bodies from the incoming "
+         "environment, result incoming ∩ (then ∪ else) / incoming); Environment::union/intersection keep the receiver's "
+         "variables; reading an unassigned self field is an error.",
+    note="Outside: forward references between top-level definitions, comprehension variables, class scopes, the match-arm "
+         "loop of constrain_cases, the constructor's final unassigned test. Observed (by design of the checker, not "
+         "claimed): a name defined in BOTH branches is still rejected afterwards.",
+    design="§4 C09")
+
 NOT_APPLICABLE = {
     "C02": "needs the generator executed on symbolic programs (core::fmt/to_py recursion does not finish in CBMC even on concrete 3-node trees) and membership in Python's grammar as the assertion; no encodable kernel (DESIGN §6)",
     "C04": "oracle is Python's dynamic semantics over whole programs and the subject is the whole checker (HashSet/recursion out of reach of Kani; not loop-free for the MIR executor) (DESIGN §6)",
